@@ -92,11 +92,16 @@ class ConstMap:
         self.d = d
 
 
-class SubSeq:
-    """ordered subsequence of a fixed list of Str"""
+class ConstItems:
+    def __init__(self, d):
+        self.d = d
 
-    def __init__(self, items, nonempty=False):
-        self.items, self.nonempty = items, nonempty
+
+class SubSeq:
+    """subsequence of a fixed list of Str; ordered=False: any permutation of the chosen items"""
+
+    def __init__(self, items, nonempty=False, ordered=True):
+        self.items, self.nonempty, self.ordered = items, nonempty, ordered
 
 
 class Pair:
@@ -108,6 +113,36 @@ class Pair:
 class Opaque:
     def __init__(self, what=""):
         self.what = what
+
+
+class Coll:
+    """list / dict of strings filled by the code under analysis (immutable value: updates rebind the variable)"""
+
+    def __init__(self, kind, elems=(), what="", asc=False, bylabel=False):
+        self.kind, self.elems, self.what, self.asc, self.bylabel = kind, list(elems), what, asc, bylabel
+
+    def plus(self, st, **kw):
+        c = Coll(self.kind, self.elems + ([st] if st not in self.elems else []), kw.get("what", self.what), kw.get("asc", self.asc), kw.get("bylabel", self.bylabel))
+        return c
+
+    def union(self, o):
+        el = list(self.elems)
+        for x in o.elems:
+            if x not in el:
+                el.append(x)
+        return Coll(self.kind, el, self.what or o.what, self.asc and o.asc, self.bylabel or o.bylabel)
+
+    def elem(self):
+        if not self.elems:
+            return Str()
+        return self.elems[0] if len(self.elems) == 1 else Str([("alt", list(self.elems))])
+
+
+class KeySet:
+    """a set / sequence of constant attribute keys; ordered=False: iteration order is not fixed by the code"""
+
+    def __init__(self, keys, ordered=True):
+        self.keys, self.ordered = list(keys), ordered
 
 
 def join_str(a: Str, b: Str) -> Str:
@@ -161,7 +196,21 @@ class ShapeInterp:
         if isinstance(st, ast.Expr):
             if isinstance(st.value, ast.Constant):
                 return [env]
+            c = st.value
+            if isinstance(c, ast.Call) and isinstance(c.func, ast.Attribute) and c.func.attr in ("append", "add") and isinstance(c.func.value, ast.Name) \
+                    and isinstance(env.get(c.func.value.id), Coll) and c.args:
+                env = dict(env)
+                env[c.func.value.id] = env[c.func.value.id].plus(self.tostr(self.ev(fi, c.args[0], env), fi, st))
+                return [env]
             self.ev(fi, st.value, env)
+            return [env]
+        if isinstance(st, ast.Assign) and isinstance(st.targets[0], ast.Subscript) and isinstance(st.targets[0].value, ast.Name) \
+                and isinstance(env.get(st.targets[0].value.id), Coll):
+            name = st.targets[0].value.id
+            k = self.ev(fi, st.targets[0].slice, env)
+            v = self.tostr(self.ev(fi, st.value, env), fi, st)
+            env = dict(env)
+            env[name] = env[name].plus(v, bylabel=isinstance(k, Int))
             return [env]
         if isinstance(st, ast.Assign):
             v = self.ev(fi, st.value, env)
@@ -222,24 +271,41 @@ class ShapeInterp:
 
     @staticmethod
     def accum_vars(body):
-        return {n.target.id for n in ast.walk(ast.Module(body, [])) if isinstance(n, ast.AugAssign) and isinstance(n.target, ast.Name)}
+        out = {n.target.id for n in ast.walk(ast.Module(body, [])) if isinstance(n, ast.AugAssign) and isinstance(n.target, ast.Name)}
+        for n in ast.walk(ast.Module(body, [])):
+            if isinstance(n, ast.Call) and isinstance(n.func, ast.Attribute) and n.func.attr in ("append", "add") and isinstance(n.func.value, ast.Name):
+                out.add(n.func.value.id)
+            if isinstance(n, ast.Assign) and isinstance(n.targets[0], ast.Subscript) and isinstance(n.targets[0].value, ast.Name):
+                out.add(n.targets[0].value.id)
+        return out
 
     def exec_for(self, fi, st, it, env, outs):
-        accs = self.accum_vars(st.body)
-        if isinstance(it, SortedItems):          # unrolled: every iteration optional (the key may be absent)
-            for sym in it.uni:
-                e_in = self.bind(st.target, Pair(lit(sym), Int(1)), env)
+        accs = {a for a in self.accum_vars(st.body) if a in env}
+
+        def merge(cur, new):
+            if isinstance(cur, Coll) and isinstance(new, Coll):
+                return cur.union(new)
+            return join_str(cur, new)
+        if isinstance(it, (SortedItems, ConstItems, KeySet)):
+            if isinstance(it, SortedItems):          # unrolled: every iteration optional (the key may be absent)
+                elems = [Pair(lit(sym), Int(1)) for sym in it.uni]
+            elif isinstance(it, ConstItems):          # constant table: every iteration happens, in table order
+                elems = [Pair(("key", k), lit(v) if isinstance(v, str) else Opaque("const")) for k, v in it.d.items()]
+            else:
+                elems = [("key", k) for k in it.keys]
+            for el in elems:
+                e_in = self.bind(st.target, el, env)
                 lp = {"cont": []}
                 res = self.block(fi, st.body, [e_in], outs, lp) + lp["cont"]
                 env = dict(env)
                 for a in accs:
                     cur = env[a]
                     for r in res:
-                        cur = join_str(cur, r[a])
+                        cur = merge(cur, r[a])
                     env[a] = cur
             return [env]
         if isinstance(it, (SymSeq, UnsortedItems)):  # star over one symbolic iteration
-            if isinstance(it, SymSeq) and accs:
+            if isinstance(it, SymSeq) and any(isinstance(env[a], Str) for a in accs):
                 self.emissions.append({"fi": fi, "node": st, "what": it.what, "asc": it.asc,
                                        "pair_asc": getattr(it.elem, "asc", None) if isinstance(it.elem, Pair) and it.what == "edges" else None})
             elems = [it.elem] if isinstance(it, SymSeq) else [Pair(lit(s), Int(1)) for s in it.uni]
@@ -247,7 +313,7 @@ class ShapeInterp:
             for el in elems:
                 e_in = self.bind(st.target, el, env)
                 for a in accs:
-                    e_in[a] = Str()
+                    e_in[a] = Coll(env[a].kind) if isinstance(env[a], Coll) else Str()
                 lp = {"cont": []}
                 res = self.block(fi, st.body, [e_in], outs, lp) + lp["cont"]
                 for r in res:
@@ -255,6 +321,15 @@ class ShapeInterp:
                         deltas[a].append(r[a])
             env = dict(env)
             for a in accs:
+                if isinstance(env[a], Coll):
+                    c = env[a]
+                    for d in deltas[a]:
+                        c = c.union(d)
+                    # the collection is filled in the iteration order of `it`
+                    c.what = getattr(it, "what", "") or c.what
+                    c.asc = bool(getattr(it, "asc", False)) and not env[a].elems
+                    env[a] = c
+                    continue
                 uniq = []
                 for d in deltas[a]:
                     if d not in uniq:
@@ -345,6 +420,15 @@ class ShapeInterp:
             if isinstance(v, int):
                 return Int(v)
             return Opaque("const")
+        if isinstance(e, ast.List) and not e.elts:
+            return Coll("list")
+        if isinstance(e, ast.Dict) and not e.keys:
+            return Coll("map")
+        if isinstance(e, ast.BinOp) and isinstance(e.op, ast.BitAnd):
+            a, b = self.ev(fi, e.left, env), self.ev(fi, e.right, env)
+            ks = [x for x in (a, b) if isinstance(x, KeySet)]
+            if ks and all(isinstance(x, (KeySet, Opaque)) or (isinstance(x, tuple) and x and x[0] == "attrkeys") for x in (a, b)):
+                return KeySet(ks[0].keys, ordered=False)       # a set intersection: iteration order is not fixed
         if isinstance(e, ast.JoinedStr):
             r = Str()
             for p in e.values:
@@ -395,6 +479,31 @@ class ShapeInterp:
                 for k in it.d:
                     items.append(self.tostr(self.ev(fi, e.elt, self.bind(g.target, ("key", k), env)), fi, e))
                 return SubSeq(items) if g.ifs else SubSeq(items, True)
+            if isinstance(it, KeySet):
+                items = []
+                for k in it.keys:
+                    items.append(self.tostr(self.ev(fi, e.elt, self.bind(g.target, ("key", k), env)), fi, e))
+                return SubSeq(items, nonempty=False, ordered=it.ordered)
+            if isinstance(it, tuple) and it and it[0] in ("attritems", "attrkeys"):
+                # iteration over a node's own attribute dict, filtered by membership in a constant key table:
+                # any subset of the table's keys, in the dict's (insertion) order
+                table = None
+                for c in g.ifs:
+                    if isinstance(c, ast.Compare) and len(c.ops) == 1 and isinstance(c.ops[0], ast.In):
+                        t = self.ev(fi, c.comparators[0], env)
+                        if isinstance(t, ConstMap):
+                            table = t
+                        elif isinstance(t, KeySet):
+                            table = ConstMap({k: k for k in t.keys})
+                if table is None:
+                    raise AnalysisError(f"shape interpreter: iteration over an attribute dict without a key-table filter at {fi.loc(e)}")
+                items = []
+                for k in table.d:
+                    el = ("key", k) if it[0] == "attrkeys" else Pair(("key", k), Int(self.value_lo))
+                    items.append(self.tostr(self.ev(fi, e.elt, self.bind(g.target, el, env)), fi, e))
+                return SubSeq(items, nonempty=False, ordered=False)
+            if isinstance(it, AttrDict):
+                return self.ev(fi, ast.ListComp(e.elt, [ast.comprehension(g.target, ast.Call(ast.Attribute(g.iter, "keys", ast.Load()), [], []), g.ifs, 0)]), env)
             if isinstance(it, SymSeq):
                 if g.ifs:
                     self.notes.append(f"filter in comprehension at {fi.loc(e)} (shape unaffected: any length)")
@@ -453,8 +562,13 @@ class ShapeInterp:
                 a = args[0]
                 if isinstance(a, UnsortedItems):
                     return SortedItems(a.uni)
+                if isinstance(a, Coll):
+                    # sorting strings is lexicographic, not by atom index
+                    return SymSeq(a.elem(), asc=False, what=a.what)
                 if isinstance(a, SymSeq):
-                    return SymSeq(a.elem, asc=True, what=a.what)
+                    # sorted by label only if the first component of the elements is the label itself
+                    bylab = isinstance(a.elem, (Int, Pair)) and not isinstance(a.elem, Str)
+                    return SymSeq(a.elem, asc=bylab, what=a.what)
                 if isinstance(a, Pair):
                     return Pair(*a.items, asc=True)
                 if isinstance(a, SortedItems):
@@ -499,6 +613,17 @@ class ShapeInterp:
                     return Int(1, none=True)
             if isinstance(recv, (SortedItems, UnsortedItems)) and attr == "items":
                 return recv
+            if isinstance(recv, Coll) and recv.kind == "map" and attr in ("items", "values"):
+                el = Pair(Int(0), recv.elem()) if attr == "items" and recv.bylabel else (Pair(Opaque("key"), recv.elem()) if attr == "items" else recv.elem())
+                return SymSeq(el, asc=False, what=recv.what or "nodes")
+            if isinstance(recv, ConstMap) and attr == "items":
+                return ConstItems(recv.d)
+            if isinstance(recv, ConstMap) and attr == "keys":
+                return KeySet(list(recv.d), ordered=True)
+            if isinstance(recv, AttrDict) and attr in ("items", "keys"):
+                return ("attritems",) if attr == "items" else ("attrkeys",)
+            if isinstance(recv, tuple) and recv and recv[0] == "nodeattr" and attr == "items":
+                return SymSeq(Pair(Int(0), Int(self.value_lo)), asc=False, what="nodes")
             if isinstance(recv, tuple) and recv[0] == "nodeattr" and attr == "values":
                 return ("values", recv[1])
             if isinstance(recv, Graph):
@@ -515,15 +640,21 @@ class ShapeInterp:
                 a = args[0]
                 if isinstance(a, SymSeq):
                     src = getattr(a, "src", None)
+                    if src is None and a.what and isinstance(a.elem, Str):
+                        src = a          # a sequence of ready-made strings (e.g. sorted(list_of_blocks))
                     if src is not None:
                         self.emissions.append({"fi": fi, "node": e, "what": src.what, "asc": src.asc,
                                                "pair_asc": getattr(src.elem, "asc", None) if isinstance(src.elem, Pair) and src.what == "edges" else None})
                     el = self.tostr(a.elem, fi, e)
                     return Str([("star", el)]) if not recv.p else Str([("opt", el + Str([("star", recv + el)]))])
+                if isinstance(a, Coll):
+                    self.emissions.append({"fi": fi, "node": e, "what": a.what, "asc": a.asc, "pair_asc": None})
+                    el = a.elem()
+                    return Str([("star", el)]) if not recv.p else Str([("opt", el + Str([("star", recv + el)]))])
                 if isinstance(a, SubSeq):
                     alts = []
                     for n in range(1, len(a.items) + 1):
-                        for comb in itertools.combinations(a.items, n):
+                        for comb in (itertools.combinations(a.items, n) if a.ordered else itertools.permutations(a.items, n)):
                             s = comb[0]
                             for c in comb[1:]:
                                 s = s + recv + c
